@@ -1,24 +1,34 @@
+_REWRITE = [
+    {"file": "hostmap.go", "subs": [["type HostMap struct {\n\tsync.RWMutex", "type HostMap struct {\n\tverifRWMutexOf[HostMap]"],
+                                    ["type RelayState struct {\n\tsync.RWMutex", "type RelayState struct {\n\tverifRWMutexOf[RelayState]"]],
+     "append": "\nvar _ sync.Mutex // keeps the import used\n"},
+    {"file": "handshake_manager.go", "subs": [["\tsync.RWMutex", "\tverifRWMutexOf[HandshakeManager]"]], "append": "\nvar _ sync.Mutex // keeps the import used\n"},
+    {"file": "lighthouse.go", "subs": [["\tsync.RWMutex", "\tverifRWMutexOf[LightHouse]"]], "append": "\nvar _ sync.Mutex // keeps the import used\n"},
+    {"file": "remote_list.go", "subs": [["\tsync.RWMutex", "\tverifRWMutexOf[RemoteList]"]], "append": "\nvar _ sync.Mutex // keeps the import used\n"},
+]
+_FILES = ["netsim/ns_core_test.go", "netsim/ns_world_test.go", "netsim/c34_test.go", "netsim/c34_lock_test.go"]
+# upstream's in-memory tun (overlay/tun_tester.go, test build only) sends on a channel its Close has
+# closed when a packet is still in flight at shutdown; a kernel tun returns an error there. The harness
+# quiesces traffic before stopping nodes; if it still happens the run is inconclusive, not a violation.
+_INFRA = [["send on closed channel", "overlay.(*TestTun).Write"]]
 CHECK = {
-    "pkg": ".", "tags": "e2e_testing", "hide": ["interface_emit_test.go"], "race": True, "races_judged_by_test": True,
-    "files": ["netsim/ns_core_test.go", "netsim/ns_world_test.go", "netsim/c34_test.go", "netsim/c34_lock_test.go"],
-    # lock-discipline bookkeeping: the embedded RWMutexes of the shared tables are replaced (in an overlay copy
-    # generated from the current working tree, /repo is not touched) by a wrapper that reports recursive read
-    # locking and read->write upgrades, which are deadlocks as soon as a writer queues in between
-    "rewrite": [
-        {"file": "hostmap.go", "subs": [["type HostMap struct {\n\tsync.RWMutex", "type HostMap struct {\n\tverifRWMutexOf[HostMap]"],
-                                        ["type RelayState struct {\n\tsync.RWMutex", "type RelayState struct {\n\tverifRWMutexOf[RelayState]"]],
-         "append": "\nvar _ sync.Mutex // keeps the import used\n"},
-        {"file": "handshake_manager.go", "subs": [["\tsync.RWMutex", "\tverifRWMutexOf[HandshakeManager]"]], "append": "\nvar _ sync.Mutex // keeps the import used\n"},
-        {"file": "lighthouse.go", "subs": [["\tsync.RWMutex", "\tverifRWMutexOf[LightHouse]"]], "append": "\nvar _ sync.Mutex // keeps the import used\n"},
-        {"file": "remote_list.go", "subs": [["\tsync.RWMutex", "\tverifRWMutexOf[RemoteList]"]], "append": "\nvar _ sync.Mutex // keeps the import used\n"},
+    "parts": [
+        # the race detector on the UNMODIFIED sources: the bookkeeping wrapper of the second part takes mutexes of
+        # its own on every lock operation, which would order goroutines that the engine itself does not order and
+        # hide races (a seeded race in the lighthouse went unreported while both were combined)
+        {"pkg": ".", "tags": "e2e_testing", "hide": ["interface_emit_test.go"], "race": True, "races_judged_by_test": True,
+         "files": _FILES, "run": "^TestC34", "infra_panics": _INFRA,
+         "env": {"GORACE": "log_path=race.log exitcode=0 halt_on_error=0"},
+         "quick": {"scale": 1, "shards": 1, "timeout": 900},
+         "thorough": {"scale": 4, "shards": 8, "timeout": 2400}},
+        # lock discipline: the embedded RWMutexes of the shared tables are replaced (in an overlay copy generated
+        # from the current working tree, /repo is not touched) by a wrapper that reports recursive read locking,
+        # read->write upgrades and lock-order inversions between the lock classes; no race detector, more workloads
+        {"pkg": ".", "tags": "e2e_testing", "hide": ["interface_emit_test.go"],
+         "files": _FILES, "rewrite": _REWRITE, "run": "^TestC34", "infra_panics": _INFRA,
+         "quick": {"scale": 1.5, "shards": 2, "timeout": 900},
+         "thorough": {"scale": 4, "shards": 8, "timeout": 2400}},
     ],
-    "run": "^TestC34",
-    # upstream's in-memory tun (overlay/tun_tester.go, test build only) sends on a channel its Close has
-    # closed when a packet is still in flight at shutdown; a kernel tun returns an error there. The harness
-    # quiesces traffic before stopping nodes; if it still happens the run is inconclusive, not a violation.
-    "infra_panics": [["send on closed channel", "overlay.(*TestTun).Write"]], "env": {"GORACE": "log_path=race.log exitcode=0 halt_on_error=0"},
-    "quick": {"scale": 1, "shards": 1, "timeout": 900},
-    "thorough": {"scale": 4, "shards": 8, "timeout": 2400},
     "engine": "E-race",
     "technique": "rapid-generated concurrent workloads on real nodes under the Go race detector (real parallelism, outside synctest), with a classified deadlock watchdog and a lock-discipline invariant (no recursive read locking, no read-to-write upgrade, one acquisition order between lock classes) checked on every lock operation of the shared tables",
     "rule": "Each case builds 4-5 real nodes (lighthouse, relay, 2-3 hosts, some direct host paths blocked so relays carry traffic) in a -race binary and runs 2-6 worker goroutines, each executing 5-40 generated operations concurrently: tun packets and bursts in all directions, re-handshakes, CloseTunnel/CloseAllTunnels, reloads of firewall/conntrack, lighthouse and punchy settings, control-API reads (hostmap listings, host info, lighthouse cache, certificates), underlay rebind, SetRemoteForTunnel, with generated yields; then all nodes are stopped concurrently. In a quarter of the cases every worker pauses once for about two seconds so that the periodic work (connection-manager traffic checks, primary swaps, relay migration, lighthouse updates) runs against live and duplicate tunnels; `crossRehandshake` makes both ends handshake with each other at the same moment. The embedded RWMutexes of HostMap, RelayState, HandshakeManager, LightHouse and RemoteList are replaced at build time (overlay copy of the current source) by a bookkeeping wrapper. A race report, a classified lock cycle, a goroutine re-acquiring a read lock it holds / upgrading it, or two code paths taking two of these lock classes in opposite orders (deadlocks as soon as a writer queues in between) is a violation; an unclassified hang is inconclusive. Non-trivial: >=2 workers and some node receiving >=3 distinct operation kinds; distinct by workload.",
